@@ -186,6 +186,148 @@ fn check_stream_ex(name: &str, pkts: &[Vec<u8>], chunking: Chunking, budget: u32
     }
 }
 
+/// The two acknowledged forms of the transport. `write_packet_with_ack` writes a command and reads
+/// the three bytes of the acknowledgement; `read_packet_with_ack` reads one packet and writes the
+/// acknowledgement. Stream = `first` + `second`; the end of the stream (or a reset) is placed at
+/// every offset; one read deviation.
+fn check_acknowledged(name: &str, first: &[u8], second: &[u8], acc: &mut Acc) {
+    let mut stream = first.to_vec();
+    stream.extend_from_slice(second);
+    let command = packets::EndOfDay { password: 123456 };
+    let command_bytes = {
+        use zvt::ZvtSerializer;
+        command.zvt_serialize()
+    };
+    let first_is_ack = first == [0x80, 0, 0];
+    let mut eofs: Vec<(Option<usize>, bool)> = vec![(None, false)];
+    for e in 0..=stream.len().min(first.len() + 6) {
+        eofs.push((Some(e), false));
+        eofs.push((Some(e), true));
+    }
+    for (eof_at, reset) in eofs {
+        for mode in 0..2 {
+            let st = dbx::explore(1, 1_000_000, |ctx| {
+                let sh: Sh = Rc::new(RefCell::new(std::mem::replace(ctx, Ctx::new(vec![], vec![], 0))));
+                let s = Scripted::new(sh.clone(), stream.clone(), Chunking::Deviations);
+                s.st.borrow_mut().eof_at = eof_at;
+                s.st.borrow_mut().fail_instead_of_eof = reset;
+                let limit = eof_at.unwrap_or(stream.len());
+                let mut problems: Vec<String> = vec![];
+                {
+                    let mut tr = PacketTransport { source: s.clone() };
+                    if mode == 0 {
+                        // command, acknowledgement, then the next packet
+                        let r = guarded(|| {
+                            let mut fut = Box::pin(tr.write_packet_with_ack(&command));
+                            match drive(fut.as_mut()) {
+                                Driven::Done(r) => Some(r.map_err(|e| format!("{e:?}"))),
+                                Driven::Blocked => None,
+                            }
+                        });
+                        let written = s.st.borrow().written.clone();
+                        let complete = first.len() <= limit;
+                        match &r {
+                            Err(p) => problems.push(format!("write_packet_with_ack panicked: {p}")),
+                            Ok(None) => {
+                                if eof_at.is_some() || complete {
+                                    problems.push("write_packet_with_ack neither returned nor failed".into());
+                                }
+                            }
+                            Ok(Some(Ok(()))) => {
+                                if !(first_is_ack && complete) {
+                                    problems.push(format!("write_packet_with_ack returned Ok although the bytes that followed the command were {} (stream ended at {limit})", hex_short(&stream[..limit.min(first.len())])));
+                                } else if s.consumed() != 3 {
+                                    problems.push(format!("after the acknowledgement {} bytes were consumed (expected 3)", s.consumed()));
+                                } else {
+                                    acc.count("ack_accepted", 1);
+                                }
+                            }
+                            Ok(Some(Err(_))) => {
+                                if first_is_ack && complete {
+                                    problems.push("write_packet_with_ack failed although a complete acknowledgement followed the command".into());
+                                } else {
+                                    acc.count("ack_errors", 1);
+                                }
+                            }
+                        }
+                        if written != command_bytes && !matches!(r, Err(_)) {
+                            problems.push(format!("bytes written {} differ from the command {}", hex_short(&written), hex_short(&command_bytes)));
+                        }
+                        if matches!(r, Ok(Some(Ok(())))) && problems.is_empty() && first.len() + second.len() <= limit {
+                            let r2 = guarded(|| {
+                                let mut fut = Box::pin(tr.read_packet::<Resp>());
+                                match drive(fut.as_mut()) {
+                                    Driven::Done(Ok(p)) => Some(Ok(format!("{p:?}"))),
+                                    Driven::Done(Err(e)) => Some(Err(format!("{e:?}"))),
+                                    Driven::Blocked => None,
+                                }
+                            });
+                            match r2 {
+                                Ok(Some(Ok(d))) if d == expect_debug(second) && s.consumed() == stream.len() => {}
+                                other => problems.push(format!("the packet behind the acknowledgement: expected {} at offset {}, got {:?} at offset {}", expect_debug(second).chars().take(60).collect::<String>(), stream.len(), other, s.consumed())),
+                            }
+                        }
+                    } else {
+                        // read one packet and acknowledge it
+                        let r = guarded(|| {
+                            let mut fut = Box::pin(tr.read_packet_with_ack::<Resp>());
+                            match drive(fut.as_mut()) {
+                                Driven::Done(Ok(p)) => Some(Ok(format!("{p:?}"))),
+                                Driven::Done(Err(e)) => Some(Err(format!("{e:?}"))),
+                                Driven::Blocked => None,
+                            }
+                        });
+                        let written = s.st.borrow().written.clone();
+                        let complete = first.len() <= limit;
+                        let parseable = first[0] != 0x80 && first[0] != 0x84;
+                        match &r {
+                            Err(p) => problems.push(format!("read_packet_with_ack panicked: {p}")),
+                            Ok(None) => {
+                                if eof_at.is_some() || complete {
+                                    problems.push("read_packet_with_ack neither returned nor failed".into());
+                                }
+                            }
+                            Ok(Some(Ok(d))) => {
+                                if !(complete && parseable && *d == expect_debug(first)) {
+                                    problems.push(format!("read_packet_with_ack returned {} for the bytes {} (stream ended at {limit})", d.chars().take(80).collect::<String>(), hex_short(&stream[..limit.min(first.len())])));
+                                } else if s.consumed() != first.len() || written != [0x80, 0, 0] {
+                                    problems.push(format!("after the packet {} bytes were consumed (expected {}) and {} was written (expected 800000)", s.consumed(), first.len(), hex_short(&written)));
+                                } else {
+                                    acc.count("read_acknowledged", 1);
+                                }
+                            }
+                            Ok(Some(Err(_))) => {
+                                if complete && parseable {
+                                    problems.push("read_packet_with_ack failed on a complete packet".into());
+                                } else if !written.is_empty() {
+                                    problems.push(format!("read_packet_with_ack failed but wrote {}", hex_short(&written)));
+                                } else {
+                                    acc.count("ack_errors", 1);
+                                }
+                            }
+                        }
+                    }
+                }
+                drop(s);
+                *ctx = Rc::try_unwrap(sh).ok().expect("stream still holds the context").into_inner();
+                acc.count("executions", 1);
+                acc.count("acknowledged_executions", 1);
+                acc.set("outcomes", h64(&(name, mode, eof_at, reset, ctx.choices(), problems.len())));
+                if !problems.is_empty() {
+                    let choices = ctx.choices();
+                    let key = format!("c04/acknowledged/{name}/mode={}/eof={eof_at:?}/reset={reset}/choices={choices:?}", if mode == 0 { "write_packet_with_ack" } else { "read_packet_with_ack" });
+                    acc.violation(viol(
+                        key,
+                        format!("stream {name} ({}), end of stream at {eof_at:?} (as I/O error: {reset}), read-split choices {choices:?}\n{}", hex_short(&stream), problems.join("\n")),
+                        ctx.deviations as u64 * 1000 + stream.len() as u64,
+                    ));
+                }
+            });
+            acc.count("transitions", st.transitions);
+        }
+    }
+}
+
 fn header_agreement(lens: &[usize], acc: &mut Acc) {
     for &n in lens {
         acc.count("executions", 1);
@@ -274,6 +416,7 @@ pub fn run(run: &RunInfo) -> Summary {
     enum W {
         Seq(usize),
         Header(usize),
+        Acked(usize, usize),
     }
     let mut work: Vec<W> = (0..seqs.len()).map(W::Seq).collect();
     let lens: Vec<usize> = if thorough {
@@ -286,6 +429,14 @@ pub fn run(run: &RunInfo) -> Summary {
         v.dedup();
         v
     };
+    // first packets for the acknowledged forms: the acknowledgement, negative acknowledgements and the alphabet
+    let mut firsts: Vec<(String, Vec<u8>)> = vec![("ack".into(), vec![0x80, 0, 0]), ("nack-849a".into(), vec![0x84, 0x9a, 0]), ("nack-8400".into(), vec![0x84, 0, 0])];
+    firsts.extend(alpha.iter().map(|(n, b)| (n.to_string(), b.clone())));
+    for f in 0..firsts.len() {
+        for sec in [0usize, 1, 6] {
+            work.push(W::Acked(f, sec));
+        }
+    }
     let chunks: Vec<&[usize]> = lens.chunks(256).collect();
     for i in 0..chunks.len() {
         work.push(W::Header(i));
@@ -318,7 +469,16 @@ pub fn run(run: &RunInfo) -> Summary {
                 header_agreement(chunks[*ci], acc)
             }
         }
+        W::Acked(f, sec) => {
+            let name = format!("{}+{}", firsts[*f].0, alpha[*sec].0);
+            if !skip_for_replay(run, &format!("c04/acknowledged/{name}/")) {
+                check_acknowledged(&name, &firsts[*f].1, &alpha[*sec].1, acc);
+            }
+        }
     });
+    if acc.get("ack_accepted") > 0 && acc.get("read_acknowledged") > 0 && acc.get("ack_errors") > 0 {
+        acc.witness("acknowledged forms: accepted, acknowledged and failed cases seen");
+    }
     if acc.get("eof_errors") > 0 {
         acc.witness("end of stream inside a packet reported as an error");
     }
@@ -336,13 +496,14 @@ pub fn run(run: &RunInfo) -> Summary {
         transitions: acc.get("transitions") + acc.get("header_cases"),
         traces_validated: execs,
         distinct_nontrivial: acc.set_len("outcomes") + acc.get("header_agreed"),
-        rule: format!("all sequences of k<=3 packets over a 9-packet alphabet (empty body, 1-2 byte bodies, bodies of 253/254/255/256/300 bytes): for streams of <=12 (thorough: 16) bytes every partition into read() results with a Pending+wake before any subset of polls; for longer streams every placement of <= {budget} deviations (1-byte, half, all-but-one read, Pending); end of stream, and a connection reset, at every byte offset; writer/reader header agreement for {} body lengths with a sentinel packet behind. distinct_nontrivial = distinct (stream, end position, result list) outcomes + agreeing body lengths", lens.len()),
+        rule: format!("all sequences of k<=3 packets over a 9-packet alphabet (empty body, 1-2 byte bodies, bodies of 253/254/255/256/300 bytes): for streams of <=12 (thorough: 16) bytes every partition into read() results with a Pending+wake before any subset of polls; for longer streams every placement of <= {budget} deviations (1-byte, half, all-but-one read, Pending); end of stream, and a connection reset, at every byte offset; the acknowledged forms write_packet_with_ack / read_packet_with_ack over 12 first packets (acknowledgement, two negative acknowledgements, the alphabet) x 3 following packets x end of stream / reset at every offset of the first packet and the next header x one read deviation; writer/reader header agreement for {} body lengths with a sentinel packet behind. distinct_nontrivial = distinct (stream, end position, result list) outcomes + agreeing body lengths", lens.len()),
         exhaustive: true,
         required_witnesses: vec![
             "all chunkings of a short stream explored".into(),
             "end of stream inside a packet reported as an error".into(),
             "partial reads and Pending wake-ups exercised".into(),
             "extended length header written and read back".into(),
+            "acknowledged forms: accepted, acknowledged and failed cases seen".into(),
         ],
         assumptions: vec!["I/O errors other than end of stream are not injected here (C06, C09)".into()],
         bounds: json!({"packets_per_stream": 3, "deviation_budget": budget, "header_lengths": lens.len()}),
